@@ -131,7 +131,7 @@ BatchSetRel ==
     \E f \in BatchFilters(w), rel \in Rels, t \in Targets(w) :
         LET up == BatchSetRelUpWhy(w, f, t)
             M == BatchSet(w, f)
-            why == IF up # "" THEN up ELSE IF BatchSetRelAllRel(w, M, rel) THEN "" ELSE "partial"
+            why == IF up # "" THEN up ELSE IF \A h \in M : RelOf(w, w.comps[h]) = rel THEN "" ELSE "partial"
         IN /\ why # "partial"
            /\ w' = IF why = "" THEN BatchSetRelStep(w, M, t) ELSE w
            /\ last' = [L("BatchSetRel", why, M, IF why = "" THEN BatchSetRelEvents(w, M, rel, t) ELSE {}, FALSE, t, TRUE)
